@@ -164,6 +164,11 @@ func runC04(c *Ctx) {
 		EOp{Kind: "updf", Sec: "p", PType: "p", FI: 0, Vals: []string{"book_admin"}, News: [][]string{{"reader", "data", "read"}}},
 		EOp{Kind: "adds", Sec: "p", PType: "p", Rules: [][]string{P[0], P[1]}},
 		EOp{Kind: "save"},
+		// a batch that is applied in part and then rejected (finding D13: a grouping rule shorter than its
+		// definition is only noticed when its link is built): the links that were built count, memoised
+		// answers must go
+		EOp{Kind: "adds", Sec: "g", PType: "g", Ex: true, Rules: [][]string{G[1], {"short"}}},
+		EOp{Kind: "adds", Sec: "g", PType: "g", Ex: true, Rules: [][]string{G[0], {"short"}}},
 	)
 	cfgX := mk("rbac-pattern-all-paths", ms, alphaX, probes, reqs, opts)
 	cfgX.Depth = 2
